@@ -3,8 +3,26 @@
 #define TETL_NUMERIC_GCD_HPP
 
 #include <etl/_type_traits/common_type.hpp>
+#include <etl/_type_traits/is_signed.hpp>
+#include <etl/_type_traits/make_unsigned.hpp>
 
 namespace etl {
+
+namespace detail {
+
+/// |v| as a value of the unsigned type U (also for the most negative value).
+template <typename U, typename T>
+[[nodiscard]] constexpr auto gcd_abs(T v) noexcept -> U
+{
+    if constexpr (etl::is_signed_v<T>) {
+        if (v < T(0)) {
+            return static_cast<U>(U(0) - static_cast<U>(v));
+        }
+    }
+    return static_cast<U>(v);
+}
+
+} // namespace detail
 
 /// \brief Computes the greatest common divisor of the integers m and n.
 ///
@@ -16,15 +34,16 @@ template <typename M, typename N>
 [[nodiscard]] constexpr auto gcd(M m, N n) noexcept -> etl::common_type_t<M, N>
 {
     using R = etl::common_type_t<M, N>;
+    using U = etl::make_unsigned_t<R>;
 
-    auto a = static_cast<R>(m);
-    auto b = static_cast<R>(n);
-    while (b != R(0)) {
-        auto const r = static_cast<R>(a % b);
+    auto a = etl::detail::gcd_abs<U>(m);
+    auto b = etl::detail::gcd_abs<U>(n);
+    while (b != U(0)) {
+        auto const r = static_cast<U>(a % b);
         a            = b;
         b            = r;
     }
-    return a;
+    return static_cast<R>(a);
 }
 
 } // namespace etl
